@@ -458,9 +458,13 @@ def cases(tier, seed):
 
     jux = []
     juxp = []
+    juxw = []
+    runs = ["  ", "\t", " \t", "\t\t", "   ", "\t "]
     for src in sk:
         for m in re.finditer(r" \* (?=[a-d(])", src):
             jux.append([src[: m.start()] + " " + src[m.end() :], src])
+            # any run of blanks and tabs is one juxtaposition
+            juxw.append([src[: m.start()] + rnd.choice(runs) + src[m.end() :], src])
         # without any space the string preprocessor inserts no '*': the evaluator's own
         # implicit operator is used, e.g. "a / b(c)"
         for m in re.finditer(r" \* (?=\()", src):
@@ -489,6 +493,15 @@ def cases(tier, seed):
             jux.append([f"a{sup}d {op1} c", f"a**({n}) * d {op1} c"])
         jux.append([f"a{sup}b", f"a**({n}) * b"])
     juxp = rnd.sample(juxp, min(len(juxp), 1000 if big else 200))
+    # runs of blanks: all those that follow a closing parenthesis, and a sample of the others
+    after_paren = [j for j in juxw if re.search(r"\)[ \t]{2,}|\)\t", j[0])]
+    juxw = rnd.sample(after_paren, min(len(after_paren), 1500 if big else 240)) + rnd.sample(juxw, min(len(juxw), 1500 if big else 160))
+    for run in runs:
+        for op1 in ("/", "//", "**", "*", "-"):
+            juxw.append([f"a {op1} (b){run}(c)", f"a {op1} (b) * (c)"] if op1 != "**" else [f"(a + 1) ** (2){run}(c)", "(a + 1) ** (2) * (c)"])
+            juxw.append([f"a {op1} (b){run}c", f"a {op1} (b) * c"] if op1 != "**" else [f"(a + 1) ** (2){run}c", "(a + 1) ** (2) * c"])
+    for i in range(0, len(juxw), 40):
+        out.append(Case("H07.a-jux", f"blanks:{i:05d}", M, "h_expression", {"exprs": juxw[i : i + 40]}, opts={"max_paths": 4000, "query_timeout_ms": 20000}, validate=2, weight=5.0))
     for i in range(0, len(jux), 40):
         out.append(Case("H07.a-jux", f"{i:05d}:{jux[i][0]}", M, "h_expression", {"exprs": jux[i : i + 40]}, opts={"max_paths": 4000, "query_timeout_ms": 20000}, validate=2, weight=5.0))
     for i in range(0, len(juxp), 40):
